@@ -91,6 +91,19 @@ SPECS = {
         ("src/model.rs", "ElementId"),
         ("src/model.rs", "ModelData"),
     ],
+    "BinrwMs": [
+        ("src/mtrl.rs", "MaterialFileHeader"),
+        ("src/mtrl.rs", "MaterialHeader"),
+        ("src/mtrl.rs", "ColorSet"),
+        ("src/mtrl.rs", "ShaderKey"),
+        ("src/mtrl.rs", "ConstantStruct"),
+        ("src/mtrl.rs", "MaterialData"),
+        ("src/shpk.rs", "MaterialParameter"),
+        ("src/shpk.rs", "Key"),
+        ("src/shpk.rs", "Pass"),
+        ("src/shpk.rs", "NodeAlias"),
+        ("src/shpk.rs", "ShaderPackage"),
+    ],
     "BinrwAux": [
         ("src/cmp.rs", "RacialScalingParameters"),
         ("src/tera.rs", "PlatePosition"),
